@@ -37,6 +37,8 @@ assumptions(PROP, [
     "matrices, from/to or range/mean frames; cycle counts 0 or in [1e-3,1e7]; largest class amplitude between 0.3 and 5 SD",
     "cycle counts are float64 or (a third of the cases) whole numbers held as int64 Series / columns; kind hist_rh is the int64 histogram "
     "returned by LoadCollective.range_histogram() for single cycles placed inside the classes (0.1..0.9 of the class width)",
+    "frames may carry repeated row labels (a third of the frame cases); a sixth of the collectives has a heavily occupied member 1e-9..5e-6 "
+    "(relative) below SD, which is below SD for every clause (no tolerance band wider than 1e-12 around the knee)",
     "at least one member with positive amplitude is occupied (an all-empty collective has no life to predict)",
     "damage and Gassner cycles are evaluated at the default failure probability 0.5 (what Fatigue.damage and gassner_cycles do)",
     "Miner-Haibach Gassner cycles are asserted when the largest class amplitude is >= SD; below SD the docstring promises an "
@@ -308,18 +310,34 @@ def collectives(draw, curve, kinds=None, need_empty=None, level=None):
             rows = [[m - a, m + a] if draw(st.booleans()) else [m + a, m - a] for a, m in zip(amp, mean)]
         else:
             rows = [[2.0 * a, m] for a, m in zip(amp, mean)]
-        coll.update(rows=rows, labels=draw(st.permutations(list(range(n)))))
+        # row labels: a permutation, or repeated labels as pd.concat() of several rainflow results leaves them
+        if draw(st.integers(0, 2)) == 0 and n >= 2:
+            labels = [draw(st.integers(0, (n - 1) // 2)) for _ in range(n)]
+            coll["dup_labels"] = len(set(labels)) < n
+        else:
+            labels = list(draw(st.permutations(list(range(n)))))
+        coll.update(rows=rows, labels=labels)
     coll["factor"] = 1.0
     rel = ref_amplitudes(coll)
     top = max(rel)
     # largest member amplitude = level * SD(50 %)
     lvl = draw(level or LEVEL)
     coll["factor"] = lvl * _RefCurve(curve).SD / top
+    # near tie: one member lies 1e-9 .. 5e-6 (relative) below the endurance limit - clearly below, far outside rounding noise
+    near = None
+    if draw(st.integers(0, 5)) == 0:
+        cand = [i for i, a in enumerate(rel) if a >= 0.05 * top]
+        near = cand[draw(st.integers(0, len(cand) - 1))]
+        eps = 10.0 ** (-draw(st.floats(5.3, 9.0, allow_nan=False)))
+        coll["factor"] = (1.0 - eps) * _RefCurve(curve).SD / rel[near]
+        coll["near_knee"] = near
     coll["scale_api"] = draw(st.booleans())
     if kind.startswith("coll") and need_empty is None and draw(st.integers(0, 3)) == 0:
         coll["cycles"], coll["pattern"] = None, "unit"
     else:
         coll["cycles"], coll["pattern"] = draw(_cycles(len(coll["rows"]), rel, need_empty))
+    if near is not None and coll["cycles"] is not None:
+        coll["cycles"][near] = max(coll["cycles"][near], float(draw(st.sampled_from([1e3, 1e5, 1e7]))))     # heavily occupied
     # type of the counts: float64, or int64 (then the counts are whole numbers)
     coll["counts"] = "float"
     if kind == "hist_rh":
@@ -352,6 +370,10 @@ def _describe(case, ctx):
         ctx.label("loc:" + coll["loc"])
     if top_class_empty(case):
         ctx.label("top_class_empty")
+    if coll.get("dup_labels"):
+        ctx.label("duplicate_row_labels")
+    if coll.get("near_knee") is not None:
+        ctx.label("member_just_below_SD")
     below = any(a < ref.SD for a in occ)
     if below:
         ctx.label("occupied_below_SD")
